@@ -494,6 +494,9 @@ func (x *Exec) runGhost(s *State, fr *Frame, env *CEnv, cls []AfterClause, ord i
 		case a.Inst:
 			s.assume(x.instantiateRequires(env, fr.contract, a.Cl))
 		case a.Ghost != "":
+			if gd := x.cs.Ghosts[a.Ghost]; gd != nil && ghostIsLocal(gd) && fr.depth > 0 {
+				continue // proof-local ghost: only the function's own verification maintains it
+			}
 			x.ghostSet(s, env, a)
 		default:
 			lbl := a.Cl.Label
